@@ -242,3 +242,8 @@ _add("C16", tech="cache-level engine with write buffers of 4-8 events and operat
 _add("C18", tech="second decision-level rule: a main-region victim evicted without comparison while an arrival of this run of the eviction loop was never considered")
 _add("C04", tech="resize mode incl. a 128-bucket table (parallel copy) just below its grow threshold with a maximum just above it")
 _add("C05", tech="resize mode incl. a 128-bucket table (parallel copy)")
+_add("C09", tech="second engine with expiry forced on: the write that cancels a load may itself expire before the stalled loader returns; the loaded value must still not be installed")
+_add("C06", tech="fault: an OnDeletion handler that panics after taking note of every n-th notification (executors contain the panic); the other notifications must still arrive")
+_add("C19", tech="third engine with a harness-held executor across the save (writes still buffered, scheduled drains not run)")
+_add("C20", tech="fault: loads called with an already cancelled context (the loader must still be invoked and its failure counted once)")
+_add("C10", tech="fault: loads called with an already cancelled context; rule load.result-not-produced")
